@@ -286,9 +286,15 @@ func (w *World) maskTest(e ast.Expr) (types.Object, bool, bool) {
 		return nil, false, false
 	}
 	for _, side := range []ast.Expr{and.Y, and.X} {
-		if id, ok := unparen(side).(*ast.Ident); ok {
-			if c, ok := w.Use(id).(*types.Const); ok {
+		if id := lastIdent(side); id != nil {
+			switch c := w.Use(id).(type) {
+			case *types.Const:
 				return c, set, true
+			case *types.Var:
+				// a flag declared as a package-level variable (table.REVERSED)
+				if c.Pkg() != nil && c.Parent() == c.Pkg().Scope() {
+					return c, set, true
+				}
 			}
 		}
 	}
